@@ -90,7 +90,7 @@ func genHosts(prop string, seed uint64, tier string) Scenario {
 		case 0:
 			sc.Ops = append(sc.Ops, Op{K: "ip4", M: anyMAC(), I: anyIP4(), P: r.n(3)})
 		case 1:
-			sc.Ops = append(sc.Ops, Op{K: "ip6", M: anyMAC(), S: r.pick(-1, -1, -1, world.MC1, world.MRouter), I: r.n(6), P: r.n(2)})
+			sc.Ops = append(sc.Ops, Op{K: "ip6", M: anyMAC(), S: r.pick(-1, -1, -1, world.MC1, world.MRouter), I: r.weighted([]int{3, 3, 3, 3, 2, 2, 2}), P: r.n(2)})
 		case 2:
 			sha := -1
 			if r.chance(1, 6) {
@@ -121,7 +121,11 @@ func genHosts(prop string, seed uint64, tier string) Scenario {
 		case 7:
 			sc.Ops = append(sc.Ops, Op{K: "other", M: anyMAC(), P: r.n(3)})
 		case 8: // Capture / Release / SetDHCPv4IPOffer create MAC entries without hosts (C05 only)
-			sc.Ops = append(sc.Ops, Op{K: "macop", M: clientMAC(), P: r.n(3), I: homeIP()})
+			mm := clientMAC()
+			if r.chance(1, 4) { // the control API is also used with the interface's own MAC and the router's
+				mm = r.pick(world.MOwn, world.MRouter)
+			}
+			sc.Ops = append(sc.Ops, Op{K: "macop", M: mm, P: r.n(3), I: homeIP()})
 		}
 	}
 	return sc
